@@ -55,7 +55,7 @@ def run_tool(ctx, script, args, name):
 
 
 def sources(extra_gen):
-    out = [os.path.join(L4_DIR, 'XrlL4', 'Table.lean'), os.path.join(L4_DIR, 'XrlL4', 'Catalogue.lean'), os.path.join(L4_DIR, 'CatDriver.lean')]
+    out = [os.path.join(L4_DIR, 'XrlL4', 'Table.lean'), os.path.join(L4_DIR, "XrlL4", "Catalogue.lean"), os.path.join(L4_DIR, "XrlL4", "CatalogueSpec.lean"), os.path.join(L4_DIR, 'CatDriver.lean')]
     for root, dirs, files in os.walk(os.path.join(L4_DIR, 'XrlL4', 'Props')):
         out += [os.path.join(root, f) for f in files if f.endswith('.lean')]
     out += [os.path.join(GEN_DIR, g) for g in extra_gen]
